@@ -599,6 +599,126 @@ def gen_merge(family, seed, index):
     return {'family': family, 'rseed': seed, 'bounds': bounds}
 
 
+# ----------------------------------------------------------------------------- named constants (locals=)
+def _preloaded_constants():
+    """names of the float constants that `math` / `numpy` export (what simplify / solve document as preloaded)"""
+    import math
+    import numpy
+    return sorted({k for mod in (math, numpy) for k, v in vars(mod).items()
+                   if isinstance(v, float) and not k.startswith('_')})
+
+
+ORDINARY = ['k', 'w', 'c0', 'rate', 'alpha', 'lam', 'K']
+PRELOADED_FUNCS = ['gamma', 'sum', 'mean']                # preloaded callables / builtins used as constant names
+LIT = re.compile(r'(?<![\w.])\d+(?:\.\d*)?(?:[eE][+-]?\d+)?(?![\w.])')
+CONST_BASES = ['simplify-linear'] * 7 + ['simplify-rational'] * 4 + ['simplify-boundary'] * 5 + \
+              ['simplify-shared-sign'] * 3      # (products a*xi*xk keep their own family: constants add nothing there)
+
+
+def _usable_names(rng, varnames, kw):
+    """constant names that are no variable, do not look like one (base + digits) and contain no variable name"""
+    base = kw.get('variables') if isinstance(kw.get('variables'), str) else (None if 'variables' in kw else 'x')
+    ok = lambda c: c not in varnames and not any(v in c for v in varnames) and \
+        not (base and re.match(r'^%s\d+$' % re.escape(base), c))
+    pre = [c for c in _preloaded_constants() if ok(c)]
+    return pre, [c for c in ORDINARY if ok(c)], [c for c in PRELOADED_FUNCS if ok(c)]
+
+
+def _abstract(text, rng, varnames, kw):
+    """replace 1-4 numeric literals of the text (never an exponent) by named constants -> (text, {name: value});
+    the value is the literal as python reads it (int stays int), or - with the sign moved into the constant -
+    its negative: '-2*x' -> 'c*x', ' - 2*x' -> ' + c*x', ' + 2*x' -> ' - c*x', '2*x' -> '-c*x' (c = -2);
+    equal values share a name in 70%"""
+    pre, plain, funcs = _usable_names(rng, varnames, kw)
+    lines = text.split('\n')
+    sites = [(i, m.start()) for i, l in enumerate(lines) for m in LIT.finditer(l)
+             if not l[:m.start()].rstrip().endswith('**')]
+    chosen = set(rng.sample(sites, rng.randint(1, min(4, len(sites))))) if sites else set()
+    consts, byval, out_lines = {}, {}, []
+    for i, l in enumerate(lines):
+        out, pos = '', 0
+        for m in LIT.finditer(l):
+            out += l[pos:m.start()]
+            pos = m.end()
+            if (i, m.start()) not in chosen:
+                out += m.group()
+                continue
+            val = ast.literal_eval(m.group())
+            absorb = rng.random() < .4
+            sign = re.search(r'([-+])\s*$', out)
+            head = out[:sign.start()] if sign else out
+            hs = head.rstrip()
+            binary = bool(sign) and bool(hs) and (hs[-1].isalnum() or hs[-1] in ')_.')
+            new, nval = None, val
+            if absorb and sign and sign.group(1) == '-':
+                new, nval = (hs + ' + ' if binary else head), -val
+            elif absorb and sign and binary:
+                new, nval = hs + ' - ', -val
+            elif absorb and not sign and not hs.endswith(('*', '/')):
+                new, nval = out + '-', -val
+            if new is None:
+                new, nval = out, val
+            tkey = (type(nval).__name__, nval)
+            name = byval.get(tkey) if rng.random() < .7 else None
+            if name is None:
+                r_ = rng.random()
+                pool = [c for c in (pre if r_ < .65 else plain if r_ < .9 else funcs) if c not in consts] or \
+                       [c for c in pre + plain if c not in consts]
+                if not pool:
+                    out += m.group()
+                    continue
+                name = rng.choice(pool)
+                consts[name] = nval
+                byval[tkey] = name
+            out = new + name
+        out_lines.append(out + l[pos:])
+    if rng.random() < .2:                                  # an entry of locals that the text does not use
+        free = [c for c in pre + plain if c not in consts]
+        if free:
+            consts[rng.choice(free)] = rng.choice([2, -3, 0.5, -1.25])
+    return '\n'.join(out_lines), consts
+
+
+def gen_constants(family, seed):
+    """a system of one of the other families in which some coefficients / right-hand sides are named constants
+    whose values the caller supplies through the documented `locals` option"""
+    rng = random.Random(seed)
+    base = 'solve' if family == 'solve-constants' else rng.choice(CONST_BASES)
+    sub = rng.randrange(10 ** 9)
+    while True:
+        spec = GENS.get(base, gen_program)(base, sub)
+        kw = dict(spec['kwds'])
+        varnames = kw['variables'] if isinstance(kw.get('variables'), list) else names_of([_lines(spec['text'])])
+        text, consts = _abstract(spec['text'], rng, list(varnames), kw)
+        plain = [_subst(l, consts) for l in _lines(text)]
+        if base == 'solve' or not (_same_sides(plain) or any(_constant_line(l) for l in plain)):
+            break                                         # (those are the situations #opposed-pair / #line-dropped)
+        sub += 1
+    kw['locals'] = consts
+    spec.update(family=family, base=base, rseed=seed, text=text, kwds=kw)
+    return spec
+
+
+class _Sub(ast.NodeTransformer):
+    def __init__(self, consts):
+        self.consts = consts
+
+    def visit_Name(self, node):
+        if node.id not in self.consts:
+            return node
+        v = self.consts[node.id]
+        neg = v < 0 or (isinstance(v, float) and str(v)[0] == '-')
+        c = ast.Constant(-v if neg else v)
+        return ast.UnaryOp(ast.USub(), c) if neg else c
+
+
+def _subst(line, consts):
+    """the relation with every named constant replaced by the CALLER'S value (literal of exactly that number)"""
+    lhs, cmp, rhs = split_line(line)
+    side = lambda s: ast.unparse(ast.fix_missing_locations(_Sub(consts).visit(ast.parse(s, mode='eval'))))
+    return '%s %s %s' % (side(lhs), cmp, side(rhs))
+
+
 # ----------------------------------------------------------------------------- one program
 def _lines(text):
     return [l.strip() for l in text.split('\n') if l.strip()]
@@ -614,12 +734,16 @@ def check(spec, res, stats):
     import mystic.symbolic as ms
     key = 'C12/bounded/%s/same-solution-set' % fam
     exact_only, extra_names = False, ()
+    kwds = dict(spec.get('kwds') or {})
+    consts = kwds.get('locals')                            # named constants: the caller's values define the system
+    if consts is not None:
+        kwds['locals'] = dict(consts)
     old = signal.signal(signal.SIGALRM, _alarm)
     signal.alarm(CALL_LIMIT)
     try:
         with contextlib.redirect_stdout(io.StringIO()):
             if fam.startswith('simplify'):
-                out = ms.simplify(spec['text'], **dict(spec['kwds']))
+                out = ms.simplify(spec['text'], **kwds)
                 in_lines = _lines(spec['text'])
                 if out is None:                           # documented: 'No solution'
                     cases = []
@@ -636,8 +760,8 @@ def check(spec, res, stats):
                     raise TypeError('merge returned %r' % (out,))
                 cases, exact_only = ([] if out is None else [[o for o in out]]), True
                 key = 'C12/bounded/merge/conjunction-of-bounds'
-            elif fam == 'solve':
-                out = ms.solve(spec['text'], **dict(spec['kwds']))
+            elif fam.startswith('solve'):
+                out = ms.solve(spec['text'], **kwds)
                 in_lines = _lines(spec['text'])
                 if not isinstance(out, str) or not out.strip():
                     raise ValueError('solve returned %r' % (out,))
@@ -675,7 +799,14 @@ def check(spec, res, stats):
         stats['aborted'] = stats.get('aborted', []) + ['%s: all=False gave one of several alternatives' % fam]
         res.case(key + '|one-of-many', False)
         return
-    if fam == 'solve' and not zsat([relation(l) for l in in_lines], names_of([in_lines])):
+    if consts:
+        try:
+            in_lines, cases = [_subst(l, consts) for l in in_lines], [[_subst(l, consts) for l in c] for c in cases]
+        except (ValueError, SyntaxError) as e:
+            stats.setdefault('unparsed', []).append('%s: %r -> %r: %s' % (fam, spec.get('text'), out, str(e)[:80]))
+            res.case(key + '|unparsed', False)
+            return
+    if fam.startswith('solve') and not zsat([relation(l) for l in in_lines], names_of([in_lines])):
         stats['inconsistent_skipped'] = stats.get('inconsistent_skipped', 0) + 1     # outside the class
         return
     try:
@@ -684,14 +815,16 @@ def check(spec, res, stats):
             stats['outside_class_second_factor'] = stats.get('outside_class_second_factor', 0) + 1
             res.case(key + '|second-factor', False)       # simplify isolated a variable with a variable coefficient
             return
-        bad = validate(in_lines, cases, exact_only, stats, extra_names, gscale=(fam == 'solve'))
+        bad = validate(in_lines, cases, exact_only, stats, extra_names, gscale=fam.startswith('solve'))
     except (ValueError, SyntaxError) as e:
         stats.setdefault('unparsed', []).append('%s: %r -> %r: %s' % (fam, spec.get('text'), out, str(e)[:80]))
         res.case(key + '|unparsed', False)
         return
     stats['programs'] = stats.get('programs', 0) + 1
     shown = {'in': in_lines, 'out': cases, 'kwds': spec.get('kwds')}
-    res.case('%s|%s' % (key, spec.get('text') or jsonable(spec)),
+    if consts:
+        shown['text'] = spec['text']
+    res.case('%s|%s%s' % (key, spec.get('text') or jsonable(spec), ' with %s' % sorted(consts.items()) if consts else ''),
              sorted(cases[0]) != sorted(in_lines) if fam == 'merge' and cases else cases != [in_lines], shown)
     if bad is None:
         return
@@ -709,6 +842,9 @@ def check(spec, res, stats):
         else:                                              # (the generators admit no #opposed-pair / #line-dropped input)
             sit = spec['pair']
         tag = '#%s-%s' % (sit, side)
+    if fam in CONST_FAMILIES and not dropped:              # sub-case = kind of system + do preloaded names occur
+        tag = '#%s-%s-%s' % (spec['base'], 'preloaded-name' if set(consts) & set(_preloaded_constants() + PRELOADED_FUNCS)
+                             else 'ordinary-names', mode)
     res.violation(key + tag, 'input %r and result %r disagree (%s) at %s' % (
         in_lines, cases, mode, {k: str(v) for k, v in pt.items()}), jsonable(spec))
 
@@ -730,6 +866,7 @@ def _merge_situation(bounds):
 
 
 NEW_FAMILIES = ('simplify-boundary', 'simplify-shared-sign', 'merge')
+CONST_FAMILIES = ('simplify-constants', 'solve-constants')
 
 
 def _alarm(*a):
@@ -749,12 +886,15 @@ def _work(spec):
 
 COUNTS = {'quick': {'simplify-linear': 24, 'simplify-opposed': 8, 'simplify-rational': 12, 'simplify-product': 4,
                     'solve': 12, 'linear_symbolic': 24, 'symbolic_bounds': 24,
-                    'simplify-boundary': 48, 'simplify-shared-sign': 24, 'merge': 147 + 80},
+                    'simplify-boundary': 48, 'simplify-shared-sign': 24, 'merge': 147 + 80,
+                    'simplify-constants': 64, 'solve-constants': 16},
           'thorough': {'simplify-linear': 680, 'simplify-opposed': 70, 'simplify-rational': 300,
                        'simplify-product': 50, 'solve': 400, 'linear_symbolic': 400, 'symbolic_bounds': 400,
-                       'simplify-boundary': 400, 'simplify-shared-sign': 200, 'merge': 147 + 1200}}
+                       'simplify-boundary': 400, 'simplify-shared-sign': 200, 'merge': 147 + 1200,
+                       'simplify-constants': 600, 'solve-constants': 150}}
 GENS = {'linear_symbolic': gen_matrix, 'symbolic_bounds': gen_matrix, 'simplify-boundary': gen_boundary,
-        'simplify-shared-sign': gen_shared_sign}
+        'simplify-shared-sign': gen_shared_sign, 'simplify-constants': gen_constants,
+        'solve-constants': gen_constants}
 
 
 def run(tier='quick', seed=0):
@@ -797,7 +937,7 @@ def run(tier='quick', seed=0):
              'right-hand sides; sub-case = comparators that sit on one (side, rhs) text, or none-returned.',
         bound='%s tier: %s programs per family, seed-derived' % (tier, COUNTS[tier]))
     specs = []
-    order = sorted(f for f in COUNTS[tier] if f not in NEW_FAMILIES) + list(NEW_FAMILIES)   # earlier families keep their seeds
+    order = sorted(f for f in COUNTS[tier] if f not in NEW_FAMILIES + CONST_FAMILIES) + list(NEW_FAMILIES + CONST_FAMILIES)   # earlier families keep their seeds
     for fi, fam in enumerate(order):
         n, gen = COUNTS[tier][fam], GENS.get(fam, gen_program)
         if fam == 'merge':
